@@ -260,7 +260,14 @@ impl Model {
             for (t, b) in &self.live_targets {
                 let p = ctx.target_path(*t);
                 match std::fs::read(&p) {
-                    Ok(bytes) if bytes[..] == ctx.blob(*b)[..] => {}
+                    Ok(bytes) if bytes[..] == ctx.blob(*b)[..] => {
+                        // (odd-numbered targets were made read-only by their owner)
+                        use std::os::unix::fs::PermissionsExt;
+                        let mode = std::fs::metadata(&p).map(|m| m.permissions().mode() & 0o7777).unwrap_or(0o444);
+                        if t % 2 == 1 && mode != 0o444 {
+                            return Err(format!("after {}: the linked file {} (the user's, outside the cache, read-only) has mode {mode:o} now", step.op.name(), p.display()));
+                        }
+                    }
                     Ok(bytes) => {
                         return Err(format!("after {}: the linked file {} (the user's, outside the cache) was rewritten: it holds {} bytes now, {} were linked", step.op.name(), p.display(), bytes.len(), ctx.blob(*b).len()))
                     }
@@ -554,6 +561,73 @@ impl Model {
                         let key = ctx.key(k).to_string();
                         self.adopt_bucket(ctx, &key);
                         self.index_dir = ctx.cache.join("index-v5").exists();
+                    }
+                }
+                Ok(())
+            }
+            Op::Abandon { at: AbandonAt::CommitDropped(_), .. } if matches!(out, Out::Panic(m) if m.starts_with("INFRA:")) => Err(out.short()),
+            Op::Abandon { spec, at: AbandonAt::CommitDropped(_) } if !matches!(out, Out::Unit) => self.step_write(ctx, spec, out, t0, t1),
+            Op::Abandon { spec, at: AbandonAt::CommitDropped(_) } => {
+                if self.pure {
+                    return Ok(());
+                }
+                let data = ctx.blob(spec.blob);
+                let opts = spec.entry == WEntry::Opts;
+                let algo = if matches!(spec.entry, WEntry::OneShot | WEntry::Create) { Algo::Sha256 } else { spec.algo };
+                let addr = (algo, blob::hexs(&blob::digest_raw(algo, &data)));
+                let valid = |m: &Model| matches!(m.content.get(&addr), Some(CState::Data { bytes, .. }) if **bytes == **data);
+                let had_valid = valid(self);
+                self.adopt_content(ctx, &addr);
+                if had_valid && !valid(self) {
+                    return Err(format!("a commit cancelled in flight took away the valid {} content of {} bytes that was stored before it", algo.name(), data.len()));
+                }
+                if let Some(k) = spec.key {
+                    let key = ctx.key(k).to_string();
+                    let old = self.entry(&key).cloned();
+                    let old_bucket = self.index.get(&key).map(|ks| ks.bucket_exists).unwrap_or(false);
+                    self.adopt_bucket(ctx, &key);
+                    self.index_dir = self.index_dir || ctx.cache.join("index-v5").exists();
+                    let new = self.entry(&key).cloned();
+                    let compatible = |a: &Option<Entry>, b: &Option<Entry>| match (a, b) {
+                        (None, None) => true,
+                        (Some(a), Some(b)) => {
+                            a.integrity == b.integrity
+                                && a.size == b.size
+                                && a.metadata == b.metadata
+                                && a.raw_metadata == b.raw_metadata
+                                && match (&a.time, &b.time) {
+                                    (TimeSpec::Exact(x), TimeSpec::Exact(y)) => x == y,
+                                    (TimeSpec::Exact(x), TimeSpec::Window(lo, hi)) | (TimeSpec::Window(lo, hi), TimeSpec::Exact(x)) => x >= lo && x <= hi,
+                                    (TimeSpec::Window(a0, a1), TimeSpec::Window(b0, b1)) => a0 == b0 && a1 == b1,
+                                }
+                        }
+                        _ => false,
+                    };
+                    if !compatible(&new, &old) {
+                        let (integ, declare) = if opts { (spec.integ, spec.declare) } else { (IntegDecl::None, Declare::None) };
+                        let other = crate::exec::other_blob(ctx, spec.blob);
+                        let (_, _, ok_int, undecided_int, ok_size) = self.commit_checks(integ, declare, algo, &data, &other);
+                        let exp = Self::expected_entry(ctx, spec, t0, t1);
+                        let same = match &new {
+                            Some(n) => {
+                                n.integrity == exp.integrity
+                                    && n.size == exp.size
+                                    && n.metadata == exp.metadata
+                                    && n.raw_metadata == exp.raw_metadata
+                                    && match (&n.time, &exp.time) {
+                                        (TimeSpec::Exact(a), TimeSpec::Exact(b)) => a == b,
+                                        (TimeSpec::Exact(a), TimeSpec::Window(lo, hi)) => a + 1 >= *lo && *a <= hi + 1,
+                                        _ => false,
+                                    }
+                            }
+                            None => false,
+                        };
+                        if !same || !((ok_int || undecided_int) && ok_size) {
+                            return Err(format!("a commit cancelled in flight changed the entry of {key:?} to {new:?}: neither the previous entry {old:?} nor the one the commit would have made"));
+                        }
+                        // what the lookup shows from now on is that record, time as recorded
+                    } else if !old_bucket {
+                        // (an empty or record-less bucket file may have appeared)
                     }
                 }
                 Ok(())
